@@ -153,14 +153,16 @@ Example C17_EDate_refuted_witness :
   exists s, strftime "%Y-%m-%dT%H:%M:%S.%f%z" (a_date (Some 1)) = Some s /\
             s = cps_of_string "2020-02-29T01:02:03.000004+000000.000001" /\
             parse_date parse_date_formats s = Some (a_date (Some 0)).
-Proof. eexists. vm_compute. repeat split; reflexivity. Qed.
+Proof.
+  exists (cps_of_string "2020-02-29T01:02:03.000004+000000.000001"). vm_compute. repeat split; reflexivity.
+Qed.
 
 (* below year 1000 %Y prints fewer than four digits and nothing reads the text back *)
 Example C17_year_999_does_not_parse :
   exists s, strftime "%Y-%m-%dT%H:%M:%S.%f%z" (with_tz (set_y (a_date None) 999) None) = Some s /\
             s = cps_of_string "999-02-29T01:02:03.000004" /\
             parse_date parse_date_formats s = None.
-Proof. eexists. vm_compute. repeat split; reflexivity. Qed.
+Proof. exists (cps_of_string "999-02-29T01:02:03.000004"). vm_compute. repeat split; reflexivity. Qed.
 
 Example C17_decimal_witness :
   dec_str {| dsign := true; dcoef := 123; dexp := -9 |} = cps_of_string "-1.23E-7" /\
